@@ -153,6 +153,31 @@ def exogenous_applied(prog):
             if isinstance(loop.iter, ast.Attribute) and loop.iter.attr == 'Exogenous' and any(
                     isinstance(c, ast.Call) and call_name(c) == 'SetEquationRightHandSide' for c in ast.walk(loop)):
                 cands.append((f, loop))
+    if not cands:
+        # the entries are first gathered into a local collection and applied from there (two passes)
+        two_pass = []
+        for f in (M.methods.values() if M else []):
+            ff = flatten(prog, f)
+            loops = [n for n in ast.walk(ff.node) if isinstance(n, ast.For) and isinstance(n.iter, ast.Attribute) and n.iter.attr == 'Exogenous']
+            sets = [c for c in ast.walk(ff.node) if isinstance(c, ast.Call) and call_name(c) == 'SetEquationRightHandSide']
+            if loops and sets:
+                two_pass.append((len(list(ast.walk(ff.node))), f, ff, loops))
+        if two_pass:
+            _, f, ff, loops = min(two_pass, key=lambda t: t[0])        # the pass itself, not the entry points it is inlined into
+            local_stores = {c.targets[0].value.id for lp in loops for c in ast.walk(lp) if isinstance(c, ast.Assign) and
+                            isinstance(c.targets[0], ast.Subscript) and isinstance(c.targets[0].value, ast.Name)}
+            first_wins = [c for lp in loops for c in ast.walk(lp) if
+                          (isinstance(c, ast.Call) and call_name(c) == 'setdefault' and isinstance(c.func.value, ast.Name)) or
+                          (isinstance(c, ast.Compare) and len(c.ops) == 1 and isinstance(c.ops[0], ast.NotIn) and
+                           isinstance(c.comparators[0], ast.Name) and c.comparators[0].id in local_stores)]
+            gathered = [c for lp in loops for c in ast.walk(lp) if (isinstance(c, ast.Call) and call_name(c) in ('append', 'setdefault')) or
+                        (isinstance(c, ast.Assign) and isinstance(c.targets[0], ast.Subscript))]
+            if first_wins:
+                return f, False, ('the entries of the exogenous list are gathered with `%s`: of two definitions of one variable the one '
+                                  'supplied FIRST is kept, the one supplied last is ignored' % unparse(first_wins[0])[:70])
+            if gathered:
+                return f, True, 'the entries are gathered in order (a later one replaces an earlier one) and then applied'
+        raise AnalysisError('expected one function applying self.Exogenous to the sectors, found %s' % [f.qualname for f, _ in cands])
     if len(cands) != 1:
         raise AnalysisError('expected one function applying self.Exogenous to the sectors, found %s' % [f.qualname for f, _ in cands])
     f_raw, _ = cands[0]
